@@ -114,6 +114,22 @@ Section WithCodec.
     - intros t id Hi. apply Hsearch. exact Hi.
   Qed.
 
+  (* in every reachable state an interrupted start-up either leaves the store down and every byte of
+     every file in place, or is the ordinary start-up *)
+  Lemma xintr_reachable : forall h s k, wf_xhist dec_m dec_d h -> xrun dec_m h = Ok s ->
+    exists s', xstep dec_m s (XStartIntr k) = Ok s' /\
+      ((s_proc s' = None /\ s_disk s' = s_disk s /\ s_acked s' = s_acked s /\ s_tried s' = s_tried s /\
+        s_ops s' = s_ops s) \/ step dec_m s HRestart = Ok s').
+  Proof.
+    intros h s k (Hwf & _) Hr.
+    destruct (xrun_inv h st0 [] (inv0 dec_m dec_d) Hwf) as (s1 & dur & Hr1 & HI & _).
+    unfold xrun in Hr. rewrite Hr in Hr1. inversion Hr1; subst s1.
+    destruct (step_inv dec_m dec_d s _ HRestart HI (Forall_nil _)) as (s0 & ext & Hs0 & _).
+    destruct (xstep_intr_char s k s0 Hs0) as (s' & Hx & [Hd | E]); exists s'.
+    - split; [exact Hx | left; exact Hd].
+    - subst s'. split; [exact Hx | right; exact Hs0].
+  Qed.
+
   (* ---------- the ghost list of acknowledged bulks is what it should be ---------- *)
 
   Lemma xstep_acked_mono : forall s o s', xstep dec_m s o = Ok s' -> exists l, s_acked s' = s_acked s ++ l.
